@@ -7,6 +7,7 @@ Every generated history is run TWICE on the real code by rust/h_cache (context b
 GenApiBuilder::default() and with .no_cache()).  The property's own predicate compares the two runs
 (results, final image, access logs); the correspondence compares both runs with model/Cache.v."""
 import json
+import struct
 import xml.etree.ElementTree as ET
 from math import gcd
 
@@ -418,6 +419,78 @@ RAW = {}
 
 def full_predicate(c, out):
     return predicate(c, RAW.get(c.line, out))
+
+
+# ------------------------------------------------------------- feature kinds as invalidators -----
+
+def feature_cases(rng):
+    """Every kind of feature whose write path announces itself (`invalidate_cache_by`) named as the <pInvalidator> of a
+    cached register that covers the bytes the feature writes: Integer, Float, Boolean, Enumeration (by value, by name,
+    and through an Integer / Boolean on top of it), Command, IntConverter, Converter, String.  Hand-written
+    descriptions; the two runs of the real code (cached / uncached) are compared by the predicate, there is no model
+    term for these."""
+    def el(tag, body):
+        return "<%s>%s</%s>" % (tag, body, tag)
+
+    def reg(tag, nm, addr, length, mode, inval=(), extra=""):
+        return '<%s Name="%s">%s</%s>' % (tag, nm, el("Address", addr) + el("Length", length) + el("AccessMode", "RW")
+                                           + el("pPort", "Device") + el("Cachable", mode)
+                                           + "".join(el("pInvalidator", i) for i in inval) + extra, tag)
+
+    ints = el("Sign", "Unsigned") + el("Endianess", "LittleEndian")
+    feats = {
+        "Integer": ('<Integer Name="F"><pValue>T</pValue></Integer>', [("s", "F", 2), ("s", "F", 1)]),
+        "Float": ('<Float Name="F"><pValue>T</pValue></Float>', [("sf", "F", 2.0), ("sf", "F", 1.0)]),
+        "Boolean": ('<Boolean Name="F"><pValue>T</pValue><OnValue>2</OnValue><OffValue>1</OffValue></Boolean>',
+                    [("sb", "F", 1), ("sb", "F", 0)]),
+        "Enumeration by value": (None, [("se", "F", 2), ("se", "F", 1)]),
+        "Enumeration by name": (None, [("sn", "F", "E2"), ("sn", "F", "E1")]),
+        "Integer over Enumeration": ('<Integer Name="G"><pValue>F</pValue></Integer>', [("s", "G", 2), ("s", "G", 1)]),
+        "Boolean over Enumeration": ('<Boolean Name="G"><pValue>F</pValue><OnValue>2</OnValue><OffValue>1</OffValue></Boolean>',
+                                     [("sb", "G", 1), ("sb", "G", 0)]),
+        "Command": ('<Command Name="F"><pValue>T</pValue><CommandValue>2</CommandValue></Command>', [("ex", "F"), ("s", "T", 1), ("ex", "F")]),
+        "IntConverter": ('<IntConverter Name="F"><FormulaTo>FROM</FormulaTo><FormulaFrom>TO</FormulaFrom><pValue>T</pValue>'
+                         '</IntConverter>', [("s", "F", 2), ("s", "F", 1)]),
+        "Converter": ('<Converter Name="F"><FormulaTo>FROM</FormulaTo><FormulaFrom>TO</FormulaFrom><pValue>T</pValue>'
+                      '</Converter>', [("sf", "F", 2.0), ("sf", "F", 1.0)]),
+    }
+    enum = ('<Enumeration Name="F"><EnumEntry Name="E0"><Value>0</Value></EnumEntry><EnumEntry Name="E1"><Value>1</Value>'
+            '</EnumEntry><EnumEntry Name="E2"><Value>2</Value></EnumEntry><pValue>T</pValue></Enumeration>')
+    cases = []
+    base = 0x100
+    for label, (fx, writes) in feats.items():
+        for mode in ("WriteThrough", "WriteAround"):
+            for tmode in ("NoCache", "WriteThrough", "WriteAround"):
+                for lvl in ("feature", "both"):
+                    watch = ["G" if "over" in label else "F"] + (["T"] if lvl == "both" else [])
+                    body = [reg("IntReg", "T", base, 4, tmode, extra=ints),
+                            reg("IntReg", "S", base, 4, mode, inval=watch, extra=ints),
+                            reg("Register", "R", base - 2, 8, mode, inval=watch)]
+                    if "Enumeration" in label:
+                        body.append(enum)
+                    if fx:
+                        body.append(fx)
+                    xml = X.document(body)
+                    ops = [("v", "S"), ("rr", "R", 8)]
+                    if label == "Command" and lvl == "feature":
+                        writes = [("ex", "F")]          # T itself is not a declared invalidator here: no direct write
+                    for w in writes:
+                        ops += [w, ("v", "S"), ("rr", "R", 8), ("v", "S")]
+                    toks = []
+                    for o in ops:
+                        if o[0] == "s":
+                            toks.append("s:%s:i:%d" % (o[1], o[2]))
+                        elif o[0] == "sf":
+                            toks.append("s:%s:i:%d" % (o[1], struct.unpack("<q", struct.pack("<d", o[2]))[0]))
+                        elif o[0] in ("v", "ex"):
+                            toks.append("%s:%s" % (o[0], o[1]))
+                        else:
+                            toks.append("%s:%s:%s" % (o[0], o[1], o[2]))
+                    image = bytes(rng.bytes(16))
+                    rline = "c %s %d %s %s" % (xhex(xml.encode()), base - 4, xhex(image), " ".join(toks))
+                    cases.append(Case("c04", rline.split(), dict(fam="feature invalidators", label=label, ops=ops),
+                                      term=None, rline=rline))
+    return cases
 
 
 # ----------------------------------------------------------------------------- generator -----
@@ -956,7 +1029,19 @@ def main():
         if r.get("kind") != "case":
             print(json.dumps(r, indent=1)[:4000])
             raise SystemExit(0)
-        term = r["mtoks"]
+        term = r.get("mtoks")
+        if not term or not term.startswith("run_both"):
+            # a case of the model-free families (feature kinds as invalidators): the two runs of the real code only
+            c = Case("c04", r["case"].split(), dict(fam="feature invalidators"), term=None, rline=r["case"])
+            impl = ck.run_impl(binary, [c.line])
+            ops, _, _ = info_of_line(c.line)
+            print("history  :", " ".join(":".join(o) for o in ops))
+            print("xml      :", bytes.fromhex(c.line.split()[1][1:]).decode()[:3000])
+            print("impl     :", _clip(impl[0], 400))
+            print("predicate:", predicate(c, impl[0]) or "holds")
+            RAW[c.line] = impl[0]
+            ck.compare([c], impl, None, full_predicate, nontrivial, family="feature invalidators")
+            ck.finish()
         c = Case("c04", term.split(), None, term=term, rline=r["case"])
         impl = ck.run_impl(binary, [c.line])
         model = ck.run_model_terms(["Cache"], [term])
@@ -977,6 +1062,12 @@ def main():
         ck.compare([cases[i] for i in idx], [impl[i] for i in idx], [model[i] for i in idx], full_predicate, nontrivial,
                    correspondence="model/Cache.v run_both vs the two runs of the real code", family=fam,
                    max_report=3 if fam == "minimised" else 1)
+    fcases = feature_cases(Rng(ck.seed))
+    fimpl = ck.run_impl(binary, [c.line for c in fcases])
+    for c, o in zip(fcases, fimpl):
+        RAW[c.line] = o
+    ck.compare(fcases, fimpl, None, full_predicate, nontrivial, family="feature invalidators", max_report=3)
+    ck.dist["feature_kinds_as_invalidators"] = len(fcases)
     nops = sum(len(c.meta["ops"]) for c in cases)
     ck.dist["operations"] = nops
     kinds, modes, topo = {}, {}, {"indexed_register": 0, "struct_entry": 0, "pvalue_wrapper": 0, "command": 0,
